@@ -64,6 +64,7 @@ type zzvFrame struct {
 	hasPC    bool
 	sigpanic bool
 	tail     string // text after the pc= field of the location line (normally none)
+	spName   string // spelling of the sp field name ("" = sp; "-" = neither sp nor fp field)
 }
 
 type zzvTrace struct {
@@ -99,7 +100,14 @@ func (t zzvTrace) render() string {
 		}
 		fmt.Fprintf(&b, "%s(%s)\n", sym, f.args)
 		if f.hasPC {
-			fmt.Fprintf(&b, "\t%s:12 +0x1d sp=0xc000012340 fp=0xc000012380 pc=0x%x%s\n", f.file, f.pc, f.tail)
+			switch f.spName {
+			case "":
+				fmt.Fprintf(&b, "\t%s:12 +0x1d sp=0xc000012340 fp=0xc000012380 pc=0x%x%s\n", f.file, f.pc, f.tail)
+			case "-":
+				fmt.Fprintf(&b, "\t%s:12 +0x1d pc=0x%x%s\n", f.file, f.pc, f.tail)
+			default:
+				fmt.Fprintf(&b, "\t%s:12 +0x1d %s=0xc000012340 fp=0xc000012380 pc=0x%x%s\n", f.file, f.spName, f.pc, f.tail)
+			}
 		} else {
 			fmt.Fprintf(&b, "\t%s:12\n", f.file)
 		}
@@ -205,7 +213,7 @@ func TestVerifC14(t *testing.T) {
 		file := fmt.Sprintf("/home/PIIuser/src/f%d.go", i)
 		if i%2 == 0 {
 			// a legal directory name; the traceback is still a genuine one
-			file = fmt.Sprintf("/home/PIIuser/my pc=1 dir/f%d.go", i)
+			file = fmt.Sprintf("/home/PIIuser/my fp=1 sp=2 pc=3 dir/f%d.go", i)
 		}
 		return zzvFrame{sym: fmt.Sprintf("example.com/PII%d/pkg.(*T).method", i), args: "0xPII, {0x1, 0x2}, ...", file: file, pc: pc, hasPC: true}
 	}
@@ -321,6 +329,9 @@ func TestVerifC14(t *testing.T) {
 			for ti, tail := range []string{" ", "\r", "\t", " PII", " extra=0x10", ","} {
 				tail := tail
 				subst(fmt.Sprintf("text after pc= of frame %d -> tail%d", i, ti), func(t *zzvTrace) { t.frames[i].tail = tail })
+				// ... combined with other text of the line changed (field names, separators)
+				subst(fmt.Sprintf("text after pc= of frame %d -> tail%d, sp= spelled SP=", i, ti), func(t *zzvTrace) { t.frames[i].tail = tail; t.frames[i].spName = "SP" })
+				subst(fmt.Sprintf("text after pc= of frame %d -> tail%d, no sp/fp fields", i, ti), func(t *zzvTrace) { t.frames[i].tail = tail; t.frames[i].spName = "-" })
 			}
 		}
 		for ai, alt := range alts {
